@@ -1,4 +1,5 @@
 import AgModel.Proofs.ParentReadyRun
+import AgModel.Proofs.PoolWiring
 /-!
 # C07 — parent-ready (property theorems)
 
@@ -519,3 +520,184 @@ example : SafeRun demoRun ∧ (pruneArgs demoRun).Pairwise (· ≤ ·) ∧ (∀ 
     Connected (hist demoRun) 12 (9, 4) ∧ ¬ Connected (hist demoRun) 12 (8, 6) := by decide
 
 end AgModel.ParentReady
+
+/-! ## Pool-level wiring (`PoolImpl`): which certificate triggers which mark, pruning only at safe roots
+
+Model: `AgModel.Pool` (`Model/Pool.lean`: `add_vote`, `add_cert`, `add_valid_cert`, `handle_finalization`, `prune`,
+`add_block` with both trackers inside).  Helper lemmas: `Proofs/PoolWiring.lean`.
+
+* the **ghost log** `poolLog p ops` of a pool run: the block registrations and the `CertCreated` events (one per
+  `add_valid_cert`), in order — observable from the outside;
+* `finOps L` : the operations the finality tracker received; `prTrace L` : the operations the parent-ready
+  tracker received (`mark_notar_fallback` for notarization / notar-fallback certificates, `mark_skipped` for skip
+  certificates, `handle_finalization` with each event of the finality tracker, `prune` to `first_unpruned_slot`);
+* **premise** `Consistent L` (decidable): `Finality.Safe (finOps L)` (C08's premise: parents in earlier slots, one
+  parent per block, at most one finalized block per slot, …) and no skip certificate for a finalized slot — what
+  consensus safety (C01) gives for the certificates a correct node can ever hold.
+-/
+namespace AgModel.Pool
+open AgModel
+
+/-- **The consistency premise implies the premises of both tracker theorems** for the trackers inside the pool:
+    `Safe` of C08 for the finality tracker's inputs and `SafeRun` of C07 for the parent-ready tracker's operations
+    (the prune roots are the watermarks: monotone, genesis or the slot of a finalized block, never skip-marked). -/
+theorem pool_premises {L : List LogItem} (hc : Consistent L) :
+    Finality.Safe (finOps L) ∧ ParentReady.SafeRun (prTrace L) :=
+  ⟨hc.safe, safeRun_prTrace hc⟩
+
+/-- **Every reachable pool is wired**: after any sequence of votes, certificates and block registrations from the
+    empty pool whose log is consistent, the pool's finality tracker is the finality tracker after `finOps L` and its
+    parent-ready tracker (with the wake-ups sent so far) is the result of running `prTrace L` from
+    `ParentReadyTracker::default()`. -/
+theorem pool_wired (e : Epoch) (ops : List PoolOp) (hc : Consistent (poolLog { epoch := e } ops)) :
+    Wired (poolRun { epoch := e } ops).1.trk (poolLog { epoch := e } ops) := by
+  have := poolRun_wired ops { epoch := e } [] (Wired.init e) (by simpa using hc)
+  simpa using this
+
+/-- **`pool_marks_exact`.**  For every pool `p` reachable from the empty pool with a consistent log `L`:
+    the finality tracker ran `finOps L` without panic; the parent-ready tracker ran `prTrace L` without panic; its root
+    is the pool's `first_unpruned_slot`; the prune roots were monotone; and the marks it *accepted* are exactly:
+    * notar-fallback mark `b`: genesis, or a notarization / notar-fallback certificate for `b` was added while `b`'s slot
+      was at or above the root (`NfCertAcc`), or the finality tracker reported `b` finalized / implicitly finalized
+      (= `b` is in the closure `Final` of the history, C08 `reports_exact`);
+    * skip mark `s`: a skip certificate for `s` was added while `s` was at or above the root (`SkCertAcc`), or the
+      finality tracker reported `s` implicitly skipped (= `Skip` of the history). -/
+theorem pool_marks_exact (e : Epoch) (ops : List PoolOp) (hc : Consistent (poolLog { epoch := e } ops)) :
+    ∃ fevs anns,
+      Finality.run Finality.init (finOps (poolLog { epoch := e } ops)) = some ((poolRun { epoch := e } ops).1.fin, fevs) ∧
+      ParentReady.run (prTrace (poolLog { epoch := e } ops)) =
+        .ok ⟨(poolRun { epoch := e } ops).1.pr, anns, (poolRun { epoch := e } ops).1.wakes⟩ ∧
+      (poolRun { epoch := e } ops).1.pr.root = (poolRun { epoch := e } ops).1.fin.first ∧
+      (ParentReady.hist (prTrace (poolLog { epoch := e } ops))).root = (poolRun { epoch := e } ops).1.fin.first ∧
+      (ParentReady.pruneArgs (prTrace (poolLog { epoch := e } ops))).Pairwise (· ≤ ·) ∧
+      (∀ b, b ∈ (ParentReady.hist (prTrace (poolLog { epoch := e } ops))).nf ↔
+        b = (0, 0) ∨ NfCertAcc (poolLog { epoch := e } ops) b ∨ Finality.Final (finOps (poolLog { epoch := e } ops)) b) ∧
+      (∀ s, s ∈ (ParentReady.hist (prTrace (poolLog { epoch := e } ops))).sk ↔
+        SkCertAcc (poolLog { epoch := e } ops) s ∨ Finality.Skip (finOps (poolLog { epoch := e } ops)) s) := by
+  have w := pool_wired e ops hc
+  generalize poolLog { epoch := e } ops = L at hc w ⊢
+  generalize (poolRun { epoch := e } ops).1 = p at w ⊢
+  obtain ⟨fevs, hrun, ti⟩ := trace_inv L hc.safe
+  obtain ⟨anns, hpr⟩ := w.pr
+  have hfin : finState L = p.fin := w.fin
+  have ri := Finality.runInv_of_run hc.safe hrun
+  have hroot : p.pr.root = p.fin.first := by
+    have := ParentReady.run_root (safeRun_prTrace hc) hpr
+    rw [ti.root, hfin] at this
+    exact this
+  refine ⟨fevs, anns, by rw [hrun, hfin], hpr, hroot, by rw [ti.root, hfin], ti.sorted, ?_, ?_⟩
+  · intro b
+    rw [ti.nf]
+    constructor
+    · rintro (a | a | a)
+      · exact Or.inl a
+      · exact Or.inr (Or.inl a)
+      · exact Or.inr (Or.inr (ri.soundF b a))
+    · rintro (a | a | a)
+      · exact Or.inl a
+      · exact Or.inr (Or.inl a)
+      · by_cases h0 : 1 ≤ b.1
+        · exact Or.inr (Or.inr ((ri.final_iff hc.safe b (Or.inl h0)).mpr a))
+        · left
+          exact (hc.safe.notar_final (0, 0) b (Or.inl rfl) a (by simp; omega)).symm
+  · intro s
+    rw [ti.sk, ri.skip_iff hc.safe]
+
+/-- **`pool_ready_iff` (exactness of the pool's query).**  For every pool `p` reachable from the empty pool with a
+    consistent log `L`, every first slot `w` of a leader window at or above `first_unpruned_slot` and every block `b`:
+    `b` is answered by `parents_ready(w)` **iff** `b` is in a slot before `w`, `b` is genesis / has an accepted
+    notarization or notar-fallback certificate / is finalized in the history, and every slot strictly between is
+    skip-certified (accepted) or implicitly skipped by a finalization — whatever the order of arrival and however
+    finalization-driven pruning was interleaved. -/
+theorem pool_ready_iff (e : Epoch) (ops : List PoolOp) (hc : Consistent (poolLog { epoch := e } ops))
+    {w : Nat} (hw : (poolRun { epoch := e } ops).1.fin.first ≤ w) (hws : ParentReady.isWindowStart w = true)
+    (b : Nat × Nat) :
+    b ∈ ParentReady.parentsReady (poolRun { epoch := e } ops).1.pr w ↔
+      b.1 < w ∧
+      (b = (0, 0) ∨ NfCertAcc (poolLog { epoch := e } ops) b ∨ Finality.Final (finOps (poolLog { epoch := e } ops)) b) ∧
+      ∀ u, b.1 < u → u < w →
+        (SkCertAcc (poolLog { epoch := e } ops) u ∨ Finality.Skip (finOps (poolLog { epoch := e } ops)) u) := by
+  obtain ⟨fevs, anns, _, hpr, _, hroot, _, hnf, hsk⟩ := pool_marks_exact e ops hc
+  have := @ParentReady.ready_iff _ ⟨_, anns, _⟩ (safeRun_prTrace hc) hpr w (by rw [hroot]; exact hw) hws b
+  rw [this, hnf]
+  constructor
+  · rintro ⟨a, c, d⟩; exact ⟨a, c, fun u x y => (hsk u).mp (d u x y)⟩
+  · rintro ⟨a, c, d⟩; exact ⟨a, c, fun u x y => (hsk u).mpr (d u x y)⟩
+
+/-- … in the form without the acceptance qualifier, for blocks at or above the watermark (marks for such slots were
+    never refused): certificates *in the log* and the closure of the history. -/
+theorem pool_ready_iff_above (e : Epoch) (ops : List PoolOp) (hc : Consistent (poolLog { epoch := e } ops))
+    {w : Nat} (hw : (poolRun { epoch := e } ops).1.fin.first ≤ w) (hws : ParentReady.isWindowStart w = true)
+    (b : Nat × Nat) (hb : (poolRun { epoch := e } ops).1.fin.first ≤ b.1) :
+    b ∈ ParentReady.parentsReady (poolRun { epoch := e } ops).1.pr w ↔
+      b.1 < w ∧
+      (b = (0, 0) ∨ (∃ c, LogItem.cert c ∈ poolLog { epoch := e } ops ∧ (c.kind = .notar ∨ c.kind = .nf) ∧ (c.slot, c.hash) = b) ∨
+        Finality.Final (finOps (poolLog { epoch := e } ops)) b) ∧
+      ∀ u, b.1 < u → u < w →
+        (SkipCertIn (poolLog { epoch := e } ops) u ∨ Finality.Skip (finOps (poolLog { epoch := e } ops)) u) := by
+  have hfs : finState (poolLog { epoch := e } ops) = (poolRun { epoch := e } ops).1.fin := (pool_wired e ops hc).fin
+  rw [pool_ready_iff e ops hc hw hws b, nfCertAcc_above hc.safe (by rw [hfs]; exact hb)]
+  constructor
+  · rintro ⟨a, c, d⟩
+    exact ⟨a, c, fun u x y => (d u x y).imp (skCertAcc_above hc.safe (by rw [hfs]; omega)).mp id⟩
+  · rintro ⟨a, c, d⟩
+    exact ⟨a, c, fun u x y => (d u x y).imp (skCertAcc_above hc.safe (by rw [hfs]; omega)).mpr id⟩
+
+/-- **`pool_pr_never_panics`.**  In every pool run with a consistent log the parent-ready tracker never hits
+    `assert!(!ready_ids.contains(&id))` (nor any other panic): the sequence `prTrace L` of *all* calls the pool made
+    to it (by `pool_wired` the tracker state is the result of exactly these calls) ran to the end, and it satisfies the
+    premise `SafeRun` of the tracker theorems, so that all of C07 (`ready_iff`, `announced_once`, …) applies to it. -/
+theorem pool_pr_never_panics (e : Epoch) (ops : List PoolOp) (hc : Consistent (poolLog { epoch := e } ops)) :
+    ParentReady.SafeRun (prTrace (poolLog { epoch := e } ops)) ∧
+    (∀ x, ParentReady.run (prTrace (poolLog { epoch := e } ops)) ≠ .error x) ∧
+    ∃ anns, ParentReady.run (prTrace (poolLog { epoch := e } ops)) =
+      .ok ⟨(poolRun { epoch := e } ops).1.pr, anns, (poolRun { epoch := e } ops).1.wakes⟩ ∧ anns.Nodup := by
+  obtain ⟨anns, hpr⟩ := (pool_wired e ops hc).pr
+  refine ⟨safeRun_prTrace hc, fun x hx => (by rw [hpr] at hx; cases hx), anns, hpr, ?_⟩
+  exact ParentReady.announced_once (safeRun_prTrace hc) hpr
+
+/-! ### the premise: non-vacuity, necessity -/
+
+def demoEpoch : Epoch := { stakes := [1, 1, 1, 1, 1], own := 0 }
+def demoCert (k : CertKind) (s h : Nat) : Cert := ⟨k, s, h, [0, 1, 2, 3], [], 4⟩
+
+/-- **Non-vacuity**: certificates, votes (three skip votes create the skip certificate of slot 3 inside the pool) and
+    block registrations over two windows, out of order, with a slow finalization (notarization + finalization
+    certificate) that moves the watermark to 1 and a fast finalization that moves it to 5. -/
+def demoPoolOps : List PoolOp :=
+  [.cert (demoCert .skip 2 0), .cert (demoCert .notar 1 7), .block (1, 7) (0, 0), .vote ⟨.skip, 3, 0, 0⟩,
+   .vote ⟨.skip, 3, 0, 1⟩, .vote ⟨.skip, 3, 0, 2⟩, .cert (demoCert .final 1 0), .cert (demoCert .nf 5 3),
+   .block (5, 3) (1, 7), .cert (demoCert .skip 6 0), .cert (demoCert .ff 5 3), .cert (demoCert .skip 7 0),
+   .cert (demoCert .skip 4 0)]
+
+example : Consistent (poolLog { epoch := demoEpoch } (demoPoolOps.take 8)) ∧
+    (poolLog { epoch := demoEpoch } (demoPoolOps.take 8)).length = 6 ∧
+    (poolRun { epoch := demoEpoch } (demoPoolOps.take 8)).1.fin.first = 1 ∧
+    ParentReady.parentsReady (poolRun { epoch := demoEpoch } (demoPoolOps.take 8)).1.pr 4 = [(1, 7)] := by decide
+
+example : Consistent (poolLog { epoch := demoEpoch } demoPoolOps) ∧
+    (poolRun { epoch := demoEpoch } demoPoolOps).1.fin.first = 5 ∧
+    ParentReady.parentsReady (poolRun { epoch := demoEpoch } demoPoolOps).1.pr 8 = [(5, 3)] ∧
+    Event.panic ∉ (poolRun { epoch := demoEpoch } demoPoolOps).2 := by decide
+
+/-- **The premise "no skip certificate for a finalized slot" is necessary**: block (2,9) is fast-finalized (watermark
+    2, parent-ready root 2) although slot 2 is skip-certified; the finality tracker's own premise `Safe` holds and
+    nothing panics.  The skip certificate of slot 3 then walks back only to the root: `parents_ready(4)` lacks (1,7)
+    although the accepted marks connect it to slot 4 (`ready_iff` fails for the pool). -/
+theorem pool_ready_iff_needs_skip_premise :
+    let ops : List PoolOp := [.cert (demoCert .notar 1 7), .block (1, 7) (0, 0), .block (2, 9) (1, 7),
+      .cert (demoCert .skip 2 0), .cert (demoCert .ff 2 9), .cert (demoCert .skip 3 0)]
+    let L := poolLog { epoch := demoEpoch } ops
+    let p := (poolRun { epoch := demoEpoch } ops).1
+    ¬ Consistent L ∧ Finality.Safe (finOps L) ∧ Event.panic ∉ (poolRun { epoch := demoEpoch } ops).2 ∧
+      p.fin.first = 2 ∧ ParentReady.parentsReady p.pr 4 = [(2, 9)] ∧
+      ParentReady.Connected (ParentReady.hist (prTrace L)) 4 (1, 7) := by decide
+
+/-- **The premise `Safe` on the finality inputs is necessary**: a fast-finalization certificate that contradicts a
+    notarization certificate makes the finality tracker panic ("consensus safety violation") inside the pool. -/
+theorem pool_unsafe_history_panics :
+    let ops : List PoolOp := [.cert (demoCert .notar 1 7), .cert (demoCert .ff 1 8)]
+    ¬ Consistent (poolLog { epoch := demoEpoch } ops) ∧ Event.panic ∈ (poolRun { epoch := demoEpoch } ops).2 := by
+  decide
+
+end AgModel.Pool
